@@ -2271,7 +2271,11 @@ func (a *adapter) SubsUpdate(topic string, user t.Uid, update map[string]any) er
 
 // SubsDelete marks subscription as deleted.
 func (a *adapter) SubsDelete(topic string, user t.Uid) error {
-	tx, err := a.db.Begin()
+	ctx, cancel := a.getContextForTx()
+	if cancel != nil {
+		defer cancel()
+	}
+	tx, err := a.db.BeginTxx(ctx, nil)
 	if err != nil {
 		return err
 	}
@@ -2281,11 +2285,6 @@ func (a *adapter) SubsDelete(topic string, user t.Uid) error {
 			tx.Rollback()
 		}
 	}()
-
-	ctx, cancel := a.getContext()
-	if cancel != nil {
-		defer cancel()
-	}
 
 	decoded_id := store.DecodeUid(user)
 	now := t.TimeNow()
